@@ -698,6 +698,14 @@ func (s *Sim) crash(p *Process, why string) {
 const workloadTypeLabel = "rollouts.kruise.io/workload-type"
 
 func (p *Process) admit(op string, gvk schema.GroupVersionKind, old, new client.Object, actor string) (client.Object, error) {
+	out, err := p.admit0(op, gvk, old, new, actor)
+	if err == nil && op == "UPDATE" && p.sim.admissionHook != nil && isWorkloadGK(ObjKey{GK: gvk.GroupKind()}) {
+		p.sim.admissionHook(actor, old, new, out)
+	}
+	return out, err
+}
+
+func (p *Process) admit0(op string, gvk schema.GroupVersionKind, old, new client.Object, actor string) (client.Object, error) {
 	var h admission.Handler
 	switch {
 	case gvk.Group == "rollouts.kruise.io" && gvk.Kind == "Rollout":
